@@ -155,6 +155,15 @@ func Unhex(s string) ([]byte, bool) {
 	return b, true
 }
 
+// StripExpect splits off a trailing word "=<published value>" (vector replay): the harness
+// compares its own output with the value, the model ignores the word.
+func StripExpect(f []string) ([]string, string) {
+	if n := len(f); n > 1 && strings.HasPrefix(f[n-1], "=") {
+		return f[:n-1], strings.ToLower(f[n-1][1:])
+	}
+	return f, ""
+}
+
 // guard runs f and maps a panic to the observable "panic".
 func Guard(f func() string) (res string) {
 	defer func() {
